@@ -692,6 +692,17 @@ def run(repo, rep):
              'commutative operations (no last-writer-wins table keyed by '
              'name)')
     check_registration_commutes(repo, rep)
+    # two clauses other properties decide, which are order clauses too: a
+    # merged layer is the *union* of what its members offer (no "first
+    # member wins"), and registering a definition in one context does not
+    # write into the definition another context registered (clone copies)
+    from sa.rules import c12, c17
+    rep.rule('R17f', 'see C17: MultiContext.get_functions is the union over '
+             'all members, exclusive if any member is')
+    rep.rule('R12f', 'see C12: FunctionDefinition.clone copies the '
+             'parameter definitions it later edits')
+    c17.check_multi(repo, rep, repo.module(c17.CTX))
+    c12.check_clone_copies_parameters(repo, rep)
     ctxm = repo.module('yaql.language.contexts')
     impls = [f for q, f in ctxm.functions.items()
              if f.name == 'get_functions' and f.is_method and
